@@ -526,12 +526,12 @@ class Batch:
         self.events, self.cases, self.ps = [], [], []
 
     def add(self, world, kind, with_plan_trace=True):
+        """first run now; the second run of the identical inputs happens in complete(), i.e. after the
+        resolutions of all the OTHER worlds of the batch (nothing may leak from one resolver to the next)"""
         o1 = run_once(world, kind, record=with_plan_trace)
-        o2 = run_once(world, kind, record=False)  # identical inputs, fresh objects
         tid = len(self.cases)
         self.events.append(dict(tid=tid, i=0, ev="resolve", kind=kind, pkgs=world_event(world), targets=world["targets"],
-                                raised=o1["raised"], exc=o1["exc"], ok=o1["ok"], ops=o1["ops"],
-                                raised2=o2["raised"], exc2=o2["exc"], ok2=o2["ok"], ops2=o2["ops"]))
+                                raised=o1["raised"], exc=o1["exc"], ok=o1["ok"], ops=o1["ops"]))
         self.cases.append(dict(world=world, kind=kind, o1=o1))
         if with_plan_trace and o1.get("ps_events"):
             u = o1["ps_universe"]
@@ -543,6 +543,12 @@ class Batch:
                 self.ps.append(dict(tid=tid, i=i + 1, **e))
         return o1
 
+    def complete(self):
+        for ev, case in zip(self.events, self.cases):
+            if "ok2" not in ev:
+                o2 = run_once(case["world"], case["kind"], record=False)  # identical inputs, fresh objects
+                ev.update(raised2=o2["raised"], exc2=o2["exc"], ok2=o2["ok"], ops2=o2["ops"])
+
 
 PLAN_CLAUSES_OF = ("Target", "Closure_depend", "Closure_bdepend", "Closure_rdepend", "Closure_idepend", "Closure_pdepend",
                    "SlotUnique", "Blocker", "NoCrash")
@@ -553,6 +559,7 @@ def judge(ck, batch, label, want):
     """want: the clause names this property owns (C15: plan clauses + PS_*, C16: policy clauses)"""
     if not batch.events:
         return dict(judged=0, outside=0)
+    batch.complete()
     verdicts, res = tlc.trace_check("Resolver_Trace", batch.events, timeout=1500)
     ck.add_mc(f"Trace:Resolver_Trace {label}", res)
     ck.traces += len(batch.events)
@@ -701,7 +708,8 @@ ASSUMPTIONS = [
 def run(ck):
     use_repo()
     want = set(PLAN_CLAUSES_OF) | {"PS"}
-    ck.rule = ("one evaluation = one resolver construction + add_atoms(targets) on fresh repositories, run twice; worlds: "
+    ck.rule = ("one evaluation = one resolver construction + add_atoms(targets) on fresh repositories, run twice (the second "
+               "time after the other worlds of the batch have been resolved); worlds: "
                "members of the TLC-exported bounded family and seeded random worlds (robust/friendly/hostile/blocky styles) x "
                "{upgrade, min-install, empty-tree}; non-trivial = distinct (world, strategy) whose resolution succeeded "
                "and merged at least one source package")
